@@ -137,5 +137,13 @@ _ADD = {
     "C18": " History replay (CFMachine.tla action Grow, action property GrowLocal - modularity of the model family - model-checked): one object answers every event, is grown in place by one edge and answers again; the answers of the object with a history are validated by TLC like any other record and compared with those of an object without history.",
     "C20": " Further family: the repository's example catalogue (SepFile.tla, seven 5-8 node graphs).",
 }
+_ADD["C01"] += " IDGenX.tla searches the chain family CH5 with the reference's own recursion structure (predicate WideL6: line 6 after line 7 with a district of >= 2 variables that a treatment splits in the topological order) and every such identifiable query (298) is validated (a seeded sample of 40 in quick). The drivers call three APIs in turn: identify_outcomes, Query + Identification, Identification.from_expression(P[X](Y | Z))."
+_ADD["C03"] += " The second scenario of the drivers alternates between permuted names and the names the library gives to latent parents (u_0, u_1, ...)."
+_ADD["C05"] = " Besides IDGen's disjoint domain configurations the problems include domains whose experiment set and surrogate-outcome set overlap (inputs only; the derived selection diagram and the truth are computed by TLC)."
+_ADD["C10"] = " ExprCalcX.tla adds a four-name alphabet of interventional / counterfactual joints whose interventions are on an ancestor of the children in the calculator's generic DAG (so that a sum can range over a child, keep another and name a variable the term does not mention)."
+_ADD["C11"] = " ExprPerm.tla has bases with a bare sum next to a fraction inside a product; the four-name alphabet of ExprCalcX.tla is canonicalised as well."
+_ADD["C12"] = " Every print/parse record is repeated with the parser's indexed names and with each probability atom built through the public builder from operator chains (a & b | c | d & e; marked pub when the whole term consists of builder atoms and the operators *, /, marginalize, normalize_marginalize: the object-equality clause then applies whatever order the builder produced); ExprCalcX.tla's four-name alphabet is included."
+_ADD["C13"] = " ExprCalcX.tla's four-name alphabet (non-vacuous interventions) is included with the closing actions fsimp / ssimp."
+_ADD["C19"] = " get_ancestral_components is also run with four roots on 4-node graphs under 6-12 node / edge insertion orders, including the graphs without directed edges (singleton ancestral sets: all merging happens in the bidirected stage)."
 for _k, _v in _ADD.items():
     CHECKS[_k]["text"] += _v
